@@ -254,7 +254,7 @@ def body(ctx, case):
 
 SUBS = [
     Sub(name="reduction", body=body, strategy=lambda ctx: case_strategy(ctx), quick=12, thorough=640,
-        lanes=("f64", "f32"), f32_fraction=0.25, quick_shards=3,
+        lanes=("f64", "f32"), f32_fraction=0.25, quick_shards=2,
         rule="reduced run + unfold vs full-domain twin, fields and co-located detector records inside the light cone"),
 ]
 
